@@ -397,3 +397,54 @@ fn c03_file_ranges_two_files_running_offset() {
     file_ranges_two_files(16384);
     kani::cover!(true, "reached");
 }
+
+// ---------------------------------------------------------------------------------------------
+// C04: where would the extractor create files?  The paths are decided in file_piece_ranges.
+
+fn alpha(b: u8) -> u8 {
+    match b % 3 {
+        0 => b'/',
+        1 => b'.',
+        _ => b'a',
+    }
+}
+
+fn escapes(p: &std::path::Path) -> bool {
+    use std::path::Component;
+    let mut bad = false;
+    for c in p.components() {
+        match c {
+            Component::Normal(_) | Component::CurDir => {}
+            _ => bad = true, // RootDir, ParentDir, Prefix
+        }
+    }
+    bad
+}
+
+// @prop C04
+// @tier off
+// @fn Metainfo::file_piece_ranges (path construction: PathBuf::from(name), dir.join(path))
+// @bound multi-file torrent named "t" with two files; the first file's path is any string of exactly 3 characters over the alphabet {'/', '.', 'a'} (27 strings: "../", "/aa", "a/.", "..a", ...), the second is "b"
+// @outside longer paths, other characters, hostile torrent names, symlinks already present in the download directory, the extractor's own create_dir_all / File::create calls (3.10)
+// @desc every path under which a listed file would be created is relative and contains no parent-directory or root component, and lies under the directory named by the torrent
+#[kani::proof]
+#[kani::unwind(8)]
+fn c04_listed_paths_stay_inside_download_dir() {
+    let raw: [u8; 3] = kani::any();
+    let bytes = [alpha(raw[0]), alpha(raw[1]), alpha(raw[2])];
+    let path = String::from_utf8(bytes.to_vec()).expect("ascii");
+    let files = vec![
+        File { length: 1, path },
+        File { length: 1, path: String::from("b") },
+    ];
+    let m = mk_metainfo(4, vec![[0u8; HASH_SIZE]], files, "t");
+    let r = m.file_piece_ranges();
+    assert!(r.len() == 2);
+    assert!(!r[0].0.is_absolute(), "a listed path is never absolute");
+    assert!(!escapes(&r[0].0), "a listed path has no parent-directory or root component");
+    assert!(r[0].0.starts_with("t"), "files of a multi-file torrent are created under the directory named by the torrent");
+    kani::cover!(bytes[0] == b'.' && bytes[1] == b'.' && bytes[2] == b'/', "the string ../");
+    kani::cover!(bytes[0] == b'/', "a leading slash");
+    std::mem::forget(r);
+    std::mem::forget(m);
+}
